@@ -481,6 +481,8 @@ def _bind_mech(kind, cls, sa, exc=None):
     """Mechanism tag of a rebinding failure; failures inherited from a nested operator are attributed to that operator."""
     nested = _type_names(sa) - {cls}
     if exc is not None:
+        if nested & {"MultiControlledX", "TemporaryAND"} and not isinstance(exc, ValueError):
+            return "bind:nested-misaligned:operand-with-data-but-num_params-0"
         if "ControlledQubitUnitary" in nested and isinstance(exc, TypeError) and "multiple values for argument 'wires'" in str(exc):
             return "bind:raises:ControlledQubitUnitary:TypeError"
         return f"bind:raises:{cls}:{type(exc).__name__}"
@@ -503,6 +505,17 @@ def _strip(v):
     if isinstance(v, tuple) and v and v[0] == "seq":
         return ("seq", tuple(_strip(e) for e in v[1]))
     return v
+
+
+def _strip_work(st):
+    """Structural fingerprint without work-wire information."""
+    if isinstance(st, tuple):
+        if len(st) == 2 and isinstance(st[0], str) and st[0] in ("@work_wires", "arg:work_wires", "work_wires", "@work_wire_type", "work_wire_type", "arg:work_wire_type"):
+            return (st[0], "-")
+        if len(st) == 4 and isinstance(st[0], str) and isinstance(st[1], tuple) and isinstance(st[2], tuple) and isinstance(st[3], tuple):
+            return (st[0], st[1], "wires", _strip_work(st[3]))  # op.wires of legacy Controlled includes the work wires
+        return tuple(_strip_work(e) for e in st)
+    return st
 
 
 def _capture(ctx, qp, a, cls, info, sa, Ma):
@@ -536,7 +549,17 @@ def _capture(ctx, qp, a, cls, info, sa, Ma):
     except Exception as e:  # noqa: BLE001
         ok = False
     if not ok:
-        ctx.violation("rt.capture", f"capture-primitive binding gives {_desc(b)} for a = {info['obj']}", case=dict(info, path="capture"), mech=f"capture:not-equal:{cls}")
+        mech = f"capture:not-equal:{cls}"
+        try:
+            if _strip_work(struct(b)) == _strip_work(sa) and struct(b) != sa:
+                mech = "capture:drops-work-wires"
+            elif Ma is not None:
+                Mb = _matrix_or_none(qp, b)
+                if Mb is not None and Mb.shape == Ma.shape and np.max(np.abs(Mb - Ma)) < 1e-6:
+                    mech = f"capture:restructured-same-matrix:{cls}"
+        except Exception:  # noqa: BLE001
+            pass
+        ctx.violation("rt.capture", f"capture-primitive binding gives {_desc(b)} for a = {info['obj']}", case=dict(info, path="capture"), mech=mech)
         return
     if Ma is not None:
         Mb = _matrix_or_none(qp, b)
